@@ -39,6 +39,55 @@ func suiteLexX(e *emitter, depth int) {
 	}
 }
 
+var ip6Tokens = []string{"0", "1", "12", "abcd", "ABCD", "00", "0abc", "12345", "g", ":", "::", ".", "1.2.3.4", "255", "256", "01", "%", "eth0", "ffff", "7f00"}
+
+// ip6x: every sequence of IPv6-text tokens between brackets, as a pattern and as an origin.
+func suiteIP6X(e *emitter, depth int) {
+	sequences(ip6Tokens, depth, func(s string) {
+		lexPattern(e, "http://["+s+"]")
+		lexParse(e, "http://["+s+"]:8080")
+	})
+	// every address text of up to 8 fields over {0, 1, ffff}, with `::` at every position or
+	// absent, with or without an IPv4 tail: the choice of the zero run that `String` compresses, exhaustively
+	vals := []string{"0", "1", "ffff"}
+	const maxN = 8
+	var rec func(fields []string)
+	emit := func(fields []string) {
+		for ell := -1; ell <= len(fields); ell++ {
+			var sb strings.Builder
+			for i, f := range fields {
+				if i == ell {
+					sb.WriteString("::")
+				} else if i > 0 {
+					sb.WriteString(":")
+				}
+				sb.WriteString(f)
+			}
+			if ell == len(fields) {
+				sb.WriteString("::")
+			}
+			lexPattern(e, "http://["+sb.String()+"]")
+			if len(fields) <= 6 {
+				sep := ":"
+				if ell == len(fields) || len(fields) == 0 {
+					sep = ""
+				}
+				lexPattern(e, "http://["+sb.String()+sep+"127.0.0.1]")
+			}
+		}
+	}
+	rec = func(fields []string) {
+		emit(fields)
+		if len(fields) == maxN {
+			return
+		}
+		for _, v := range vals {
+			rec(append(fields, v))
+		}
+	}
+	rec(nil)
+}
+
 var acrhTokens = []string{"a", "b", "ab", "abc", "c", ",", " ", "\t", "A"}
 
 func suiteACRHX(e *emitter, depth int) {
